@@ -1097,6 +1097,8 @@ def find(lhs, rhs, ctx):
     (any, fun) -> truthy indices of mapping b over a
     """
     ts = vy_type(lhs, rhs)
+    if ts == (str, str):
+        return lhs.find(rhs)
     if types.FunctionType not in ts:
         lhs, rhs = (
             (rhs, lhs)
